@@ -95,6 +95,12 @@ UploadPart(b, k, u, n, c) ==
          /\ UNCHANGED <<bkts, objs, nvid, nup, csz>>
          /\ Log("UploadPart", a, OK([etag |-> c, size |-> csz[c]]))
 
+\* an upload of a part that FAILS (the body does not match its declared Content-MD5):
+\* nothing changes - in particular an earlier successful upload of that number stays
+UploadPartBad(b, k, u, n, c) ==
+    LET a == [b |-> b, k |-> k, u |-> u, n |-> n, c |-> c] IN
+    Same /\ Log("UploadPartBad", a, Err(IF Matches(b, k, u) THEN "BadDigest" ELSE "NoSuchUpload"))
+
 UploadPartCopy(b, k, u, n, sk, cls) ==
     LET live == Live(b, sk)
         src == IF live THEN Head1(Stack(b, sk)).c ELSE "-"
@@ -191,6 +197,7 @@ OpAll ==
     \/ \E k \in Keys, m \in Metas : CreateMPU(TheBucket, k, m)
     \/ \E k \in Keys, u \in Uploads : \E n \in IF M(k, u) THEN PartNums ELSE {1}, c \in IF M(k, u) THEN Contents ELSE {CHOOSE c \in Contents : TRUE} :
           UploadPart(TheBucket, k, u, n, c)
+    \/ \E k \in Keys, u \in Uploads : \E n \in IF M(k, u) THEN PartNums ELSE {1} : M(k, u) /\ UploadPartBad(TheBucket, k, u, n, CHOOSE c \in Contents : TRUE)
     \/ \E k \in Keys, u \in Uploads : \E n \in IF M(k, u) THEN PartNums ELSE {1}, sk \in IF M(k, u) THEN Keys ELSE {k},
              cls \in IF M(k, u) THEN RangeClasses ELSE {"none"} : UploadPartCopy(TheBucket, k, u, n, sk, cls)
     \/ \E k \in Keys, u \in Uploads : \E max \in IF M(k, u) THEN 0 .. 2 ELSE {0}, marker \in IF M(k, u) THEN 0 .. 2 ELSE {0} :
@@ -247,6 +254,8 @@ OpSim ==
     \/ \E u \in {RUp} : \E k \in {RKey(u)}, n \in {RPart(u)} : \E c \in {RContent(n)} : HaveUp /\ UploadPart(TheBucket, k, u, n, c)
     \/ \E u \in {RUp} : \E k \in {RKey(u)}, n \in {RPart(u)} : \E c \in {RContent(n)} : HaveUp /\ UploadPart(TheBucket, k, u, n, c)
     \/ \E u \in {RUp} : \E k \in {RKey(u)}, n \in {RPart(u)} : \E c \in {RContent(n)} : HaveUp /\ UploadPart(TheBucket, k, u, n, c)
+    \* a failing re-upload of a part number that was uploaded before
+    \/ \E u \in {RUp} : \E k \in {RKey(u)}, n \in {IF HaveParts(u) THEN Rnd(Present(u)) ELSE Rnd(PartNums)}, c \in {Rnd(Contents)} : HaveUp /\ HaveParts(u) /\ UploadPartBad(TheBucket, k, u, n, c)
     \* re-upload of a part number
     \/ \E u \in {RUp} : \E k \in {RKey(u)}, n \in {IF HaveParts(u) THEN Rnd(Present(u)) ELSE Rnd(PartNums)}, c \in {Rnd(Contents)} : HaveUp /\ UploadPart(TheBucket, k, u, n, c)
     \/ \E u \in {RUp} : \E k \in {RKey(u)}, n \in {RPart(u)}, sk \in {RSrc}, cls \in {Rnd(RangeClasses)} : HaveUp /\ HaveSrc /\ UploadPartCopy(TheBucket, k, u, n, sk, cls)
